@@ -53,7 +53,14 @@ Proof. vm_compute. reflexivity. Qed.
 Theorem c16_model_trace_ok : forall ops, c16_ok ops (rtte_trace rtte_default ops) = true.
 Proof. exact model_trace_ok. Qed.
 
+(* the sample clause at full strength, on every trace: after each sample rtt = srtt and
+   rto = clamp (srtt + max (4 rttvar) G) with srtt / rttvar carried by the RFC 6298 recurrence;
+   a timeout leaves them alone (so the next sample "returns to the sample-derived value") *)
+Theorem c16_model_trace_exact_ok : forall ops, c16_exact_ok ops (rtte_trace rtte_default ops) = true.
+Proof. exact model_trace_exact_ok. Qed.
+
 Print Assumptions c16_rto_bounds.
+Print Assumptions c16_model_trace_exact_ok.
 Print Assumptions c16_model_trace_ok.
 Print Assumptions c16_trace_bounds.
 Print Assumptions c16_rto_after_sample.
